@@ -106,5 +106,13 @@ example := C10_function_pick true _ apiExA.1 0 1 apiExA.2 none
 
 example := C10_pick_method exTbl exTbl_wfu exTbl_varsOK 3 exTbl_mem3 none
 
+/-- the same on a state with three variables, stored nodes and three handles (`nvA4` of
+`DDProps/C08.lean`: `fa`, `fb`, `fx = fa xor fb` on the complemented node −4) -/
+example := C08_function_readonly true nvA4 nvA4_inv 2 (-4) nvA4_h2
+example := C10_function_count true nvA4 nvA4_inv 2 (-4) nvA4_h2
+example := C10_function_pick true nvA4 nvA4_inv 2 (-4) nvA4_h2 none
+example := (C08_function_mixins 3).1 2 ["a"] nvA4 nvA4_inv nvA4_f3 _ _ rfl
+example : (fHash 2 nvA4).1 = .ok (-4) ∧ (fStr 2 nvA4).1 = .ok "@-4" := by decide +kernel
+
 
 end DD
